@@ -63,6 +63,7 @@ def opTags (w : World) : Op → List String
   | .burn => ["eval_cost-used"]
   | .rp => ["replace_program"]
   | .mv _ => ["move_object"]
+  | .zshb n => if w.dead.contains 0 && false then [] else ["own-set_heart_beat"] ++ efunTags n
 
 def runOpsT (w : World) (self : Nat) : List Op → World × List Ev × Status × List String
   | [] => (w, [], .ok, [])
@@ -73,9 +74,11 @@ def runOpsT (w : World) (self : Nat) : List Op → World × List Ev × Status ×
       match runOpsT w1 self rest with
       | (w2, evs2, st, tg2) => (w2, evs ++ evs2, st, tg ++ tg2)
     | (w1, evs, .stop) =>
-      match rest with
-      | .err :: _ => (w1, evs ++ [.err self], .err, tg ++ ["error.after-self-destruct"])
-      | _ => (w1, evs, .stop, tg)
+      match runDead w1 self rest with
+      | (w2, evs2, st) =>
+        (w2, evs ++ evs2, st,
+         tg ++ (if st == .err then ["error.after-self-destruct"] else []) ++
+           (if evs2.any (fun e => match e with | .zshb _ _ => true | _ => false) then ["shb.destructed-return:own-call-after-self-destruct"] else []))
     | (w1, evs, st) => (w1, evs, st, tg)
 
 def errTags (w : World) : List String :=
